@@ -1087,7 +1087,7 @@ theorem parseBody_print {sh : Shape} {dim : Nat} (hs : supported sh (dim : Int) 
   unfold mkSt emptyNode at hl
   unfold parseBody
   simp only [hc, hn, hl]
-  simp [mapOutOfRange]
+  simp [mapOutOfRange, resolveLinks, resolveDeduct]
 
 end FeatModel.C11.RT
 
